@@ -749,6 +749,20 @@ theorem from_tensor_value {R : Type} [CommSemiring R] (t : RTree) (ld : Nat → 
       ∀ σ, netValue dim binds out σ = A σ :=
   fromTensor_value t ld hnd dim A out hA hrun
 
+/-- **The labels of the result.**  With distinct identifiers every node of the result carries, in this order, the
+child end of the bond to its parent, the parent ends of the bonds to its children (in order) and its own two
+axes of the dense input: every bond label occurs in exactly the two node tensors of its edge, so the record
+`t.edges.map bondPair` of `from_tensor_value` IS the network `_from_tensor_rec` built. -/
+theorem from_tensor_labels (t : RTree) (ld : Nat → Nat) (hnd : t.ids.Nodup) :
+    ∀ x ∈ fromTensor t ld, x.legs.map (vleg x.id) =
+      x.parent.toList.map (fun q => VLeg.cEnd q x.id) ++ x.children.map (fun k => VLeg.pEnd x.id k) ++
+        [VLeg.ax (ld x.id), VLeg.ax (t.size + ld x.id)] := by
+  rw [from_tensor_legs]
+  intro x hx
+  simpa using specNodes_vlegs _ none t hnd (by simp) x hx
+
+example : (RTree.node 0 [.node 1 [.node 3 []], .node 2 []]).ids.Nodup := by decide
+
 /-- a rank-2 operator on two sites and an exact factorisation of it over a bond of dimension 2 -/
 def demoT : RTree := .node 0 [.node 1 []]
 def demoQ : Asg VLeg → Int := fun σ =>
